@@ -98,10 +98,12 @@ def gen_configs(rng, tier):
     for _ in range(3 if tier == "quick" else 6):
         method = rng.choice(["achr", "optgp"])
         api = rng.choice(["sample", "object", "object"])
-        cfg = {"method": method, "api": api, "n": rng.choice([1, 2, 3, 7, 10, 17, 25] if tier == "quick"
+        cfg = {"method": method, "api": api, "n": rng.choice([1, 2, 3, 5, 7, 10, 11, 17, 25] if tier == "quick"
                                                              else [1, 2, 5, 20, 50, 100]),
                "thinning": rng.choice([1, 2, 5, 10, 25]), "seed": rng.randrange(1, 2 ** 31),
-               "processes": rng.choice([1, 1, 1, 2]) if method == "optgp" else 1,
+               "processes": rng.choice([1, 1, 2, 2, 3]) if method == "optgp" else 1,
+               # successive sample() calls on the SAME sampler object (its centre / counters carry over)
+               "repeat": rng.choice([1, 1, 2, 3]) if api == "object" else 1,
                "fluxes": True if api == "sample" else rng.random() < 0.55,
                "nproj": None if api == "sample" else rng.choice([None, None, 1, 3, 7])}
         cfgs.append(cfg)
@@ -269,6 +271,14 @@ def run_instance(inst):
             ub = None if e["above"] is None else str(val + F(e["above"]))
             if lb is not None and ub is not None and F(lb) == F(ub) and rng.random() < 0.5:
                 ub = str(F(ub) + 1)
+            shape = rng.random()
+            if shape < 0.15 and abs(val) >= 1:
+                # a narrow two-sided range: wider than the tolerance, small relative to its value
+                lb, ub = str(val * (1 - F(4, 10 ** 6))), str(val * (1 + F(4, 10 ** 6)))
+                if F(lb) > F(ub):
+                    lb, ub = ub, lb
+            elif shape < 0.3 and val != 0:
+                lb = ub = str(val)             # an equality with a non-zero right-hand side
             resolved.append([lb, ub])
     add_extra(m, net, resolved)
     pts = vertex_points(m)
@@ -297,7 +307,9 @@ def run_instance(inst):
             return None, sample(m, cfg["n"], method=cfg["method"], thinning=cfg["thinning"],
                                 processes=cfg["processes"], seed=cfg["seed"])
         s = make(cfg)
-        return s, s.sample(cfg["n"], fluxes=cfg["fluxes"])
+        import pandas as pd
+        dfs = [s.sample(cfg["n"], fluxes=cfg["fluxes"]) for _ in range(cfg.get("repeat", 1))]
+        return s, (dfs[0] if len(dfs) == 1 else pd.concat(dfs, ignore_index=True))
 
     tolf = float(m.tolerance)
     inhomogeneous = any(r["lb"] == r["ub"] and r["lb"] != 0 for r in net["rxns"]) or any(
@@ -340,6 +352,7 @@ def run_instance(inst):
         want_rows = cfg["n"]
         if cfg["method"] == "optgp" and cfg["processes"] > 1:
             want_rows = -(-cfg["n"] // cfg["processes"]) * cfg["processes"]
+        want_rows *= cfg.get("repeat", 1)
         want_cols = rids if cfg["fluxes"] else var_names
         ob["shape"] = [list(df.shape), want_rows, list(df.columns) == want_cols]
         if df.shape[0] != want_rows or list(df.columns) != want_cols:
